@@ -72,23 +72,11 @@ def check(ctx):
                         ctx.ob("R-ZEROVAR", f"variance compared with atol + |mean| rtol and rejected before the square root [{cfg}]", ok and okc, f"raise at {guards}, scale_ set at {sets}, guard {conds[:1]}", site, cfg)
                         # the guard itself, against the reference condition
                         gconds = [c_ for e in ev if e["kind"] == "raise" and e.get("short", "").endswith("StandardFlexibleScaler.fit") for c_, pol in e["pc"][-1:] if pol]
-                        sc_t = ctx.attr(st, o, "scale_").term
-                        var_t = None
-                        for x in tq.walk_all(sc_t):
-                            if x.op in ("average", "mean") and any(isinstance(a_, tuple) and a_[0] == "axis" for a_ in x.args[1:]) and tq.has_op(x.args[0], "pow", "mul"):
-                                var_t = x
-                                break
-                        if ctx.ob("R-ZEROVAR", f"guard condition and variance located [{cfg}]", bool(gconds) and var_t is not None, f"{len(gconds)} guard(s)", site, cfg):
-                            from ..terms import V as _V
-
+                        if ctx.ob("R-ZEROVAR", f"guard condition located [{cfg}]", bool(gconds), f"{len(gconds)} guard(s)", site, cfg):
                             I3, s3 = ctx.interp(), State()
-                            mean_t = [x for x in tq.walk_all(var_t) if x.op in ("average", "mean") and x is not var_t]
                             h = st.heap[o.obj.id]
-                            varv = _V("arr", var_t, shape=(__import__("sa.terms", fromlist=["Dim"]).Dim.of("M"),), orig=frozenset([("fresh",)]), loc=0)
-                            meanv = _V("arr", mean_t[0], shape=(__import__("sa.terms", fromlist=["Dim"]).Dim.of("M"),), orig=frozenset([("fresh",)]), loc=0) if mean_t else None
-                            if meanv is not None:
-                                refc = ctx.call_func(I3, s3, "ref.preprocessing_ref.zero_variance_columnwise" if cw else "ref.preprocessing_ref.zero_variance_total", varv, meanv, h["atol"], h["rtol"])
-                                ctx.ob("R-ZEROVAR", f"the zero-variance guard is `variance < atol + |mean| rtol` [{cfg}]", any(N.nf(g) == N.nf(refc.term) for g in gconds), f"guard {[repr(g)[:160] for g in gconds[:1]]} vs reference {repr(refc.term)[:160]}", site, cfg)
+                            refc = ctx.call_func(I3, s3, "ref.preprocessing_ref.zero_variance_guard", X, w if weighted else vconst(None), cw, weighted, h["atol"], h["rtol"])
+                            ctx.ob("R-ZEROVAR", f"the zero-variance guard is `variance < atol + |mean| rtol` [{cfg}]", any(N.nf(g) == N.nf(refc.term) for g in gconds), f"guard {[repr(g)[:160] for g in gconds[:1]]} vs reference {repr(refc.term)[:160]}", site, cfg)
                     # transform / inverse on the fitted state
                     Xt = arr("Xt", "V", "M")
                     lo = len(I.events)
@@ -113,11 +101,10 @@ def check(ctx):
     for a in ("mean_", "scale_"):
         v = ctx.attr(st, o, a)
         reds = [t for t in v.term.walk() if t.op in ("mean", "average", "sum", "var", "std") and any(isinstance(x, tuple) and x[0] == "axis" and x[1] == T("const", Fraction(0)) for x in t.args[1:])]
-        bad = [repr(t)[:100] for t in reds if not any(isinstance(x, tuple) and x[0] == "weights" for x in t.args[1:])]
-        ctx.ob("R-WEIGHTS", f"every reduction over the sample axis feeding {a} is weighted", bool(reds) and not bad, f"unweighted reductions: {bad}" if bad else f"{len(reds)} weighted reductions", site)
-        ws_ = [x[1] for t in reds for x in t.args[1:] if isinstance(x, tuple) and x[0] == "weights"]
-        okn = all(w.op == "sdiv" and w.args[1].op == "sum" for w in ws_)
-        ctx.ob("R-WEIGHTS", f"the weights feeding {a} are normalised to one", bool(ws_) and okn, f"{[repr(w)[:80] for w in ws_[:2]]}", site)
+        # weighted: through the `weights=` argument or because the reduced expression itself carries the weights
+        # (that the weights are normalised and enter linearly is decided by the reference comparison above)
+        bad = [repr(t)[:100] for t in reds if not any(isinstance(x, tuple) and x[0] == "weights" for x in t.args[1:]) and not tq.has_sym(t.args[0], "w")]
+        ctx.ob("R-WEIGHTS", f"every reduction over the sample axis feeding {a} is weighted", not bad and (bool(reds) or tq.has_sym(v.term, "w")), f"unweighted reductions: {bad}" if bad else f"{len(reds)} reductions over the sample axis, all carrying the weights", site)
         ctx.ob("R-WEIGHTS", f"no ddof / n-1 correction in {a}", not any(isinstance(a_, tuple) and a_ and a_[0] == "ddof" for x in tq.walk_all(v.term) for a_ in x.args), repr(v.term)[:200], site, nontrivial=False)
 
 
